@@ -519,7 +519,9 @@ func parseContent(contentMap map[string]any) (Content, error) {
 		return parseTextContent(contentMap)
 	case "image":
 		return parseImageContent(contentMap)
-	case "resource":
+	case ContentTypeAudio:
+		return parseAudioContent(contentMap)
+	case "resource", ContentTypeEmbeddedResource:
 		return parseResourceContent(contentMap)
 	default:
 		return nil, fmt.Errorf("unsupported content type: %s", contentType)
@@ -528,8 +530,9 @@ func parseContent(contentMap map[string]any) (Content, error) {
 
 // parseTextContent parses text content
 func parseTextContent(contentMap map[string]any) (Content, error) {
-	text := extractString(contentMap, "text")
-	if text == "" {
+	// An empty text is a legitimate text: only a missing (or non-string) member is an error.
+	text, ok := contentMap["text"].(string)
+	if !ok {
 		return nil, fmt.Errorf("text is missing")
 	}
 	return NewTextContent(text), nil
@@ -543,6 +546,16 @@ func parseImageContent(contentMap map[string]any) (Content, error) {
 		return nil, fmt.Errorf("image data or mimeType is missing")
 	}
 	return NewImageContent(data, mimeType), nil
+}
+
+// parseAudioContent parses audio content
+func parseAudioContent(contentMap map[string]any) (Content, error) {
+	data := extractString(contentMap, "data")
+	mimeType := extractString(contentMap, "mimeType")
+	if data == "" || mimeType == "" {
+		return nil, fmt.Errorf("audio data or mimeType is missing")
+	}
+	return NewAudioContent(data, mimeType), nil
 }
 
 // parseResourceContent parses resource content
@@ -586,7 +599,8 @@ func parseResourceContents(contentMap map[string]any) (ResourceContents, error) 
 
 	mimeType := extractString(contentMap, "mimeType")
 
-	if text := extractString(contentMap, "text"); text != "" {
+	// An empty text is still a text resource: decide by the member's presence.
+	if text, ok := contentMap["text"].(string); ok {
 		return TextResourceContents{
 			URI:      uri,
 			MIMEType: mimeType,
